@@ -59,6 +59,17 @@ def run(ctx) -> None:
     loops_cc = [n for n in walk_own(cc.node) if isinstance(n, (ast.While, ast.For))]
     direct = all((isinstance(r.value, ast.Name) and r.value.id in got_vars) or (isinstance(r.value, ast.Call) and call_name(r.value) == "get") or (isinstance(r.value, ast.Call) and call_name(r.value) == "cast" and len(r.value.args) == 2 and isinstance(r.value.args[1], ast.Name) and r.value.args[1].id in got_vars) for r in rets_cc)
     rep.check("C12.R1", bool(rets_cc) and direct and not redefs and not loops_cc, cc, (redefs or loops_cc or rets_cc or [cc.node])[0], "current_context() returns exactly the value it read from the variable", "current_context() post-processes what it read (walks to another context / skips some): a task no longer sees the context it inherited or entered, and what it sees depends on what OTHER tasks did to that context")
+    # NoCurrentContext means "there is none": the raise depends on nothing but the value being None
+    from .discharge import controlling_tests as _ct12
+
+    cccfg = a.cfg(cc)
+    deep = []
+    for rn_ in cccfg.live_nodes():
+        if rn_.kind == "stmt" and isinstance(rn_.ast, ast.Raise):
+            for t_, _lab in _ct12(cccfg, rn_):
+                if isinstance(t_.ast, ast.AST) and any(isinstance(x, ast.Attribute) and isinstance(x.value, ast.Name) and x.value.id in got_vars for x in ast.walk(t_.ast)):
+                    deep.append(t_)
+    rep.check("C12.R1", not deep, cc, deep[0].ast if deep else cc.node, "current_context() raises only when the variable holds no context", f"`{ast.unparse(deep[0].ast) if deep else ''}`: current_context() also refuses a context that IS current, depending on that context's own state - which other tasks change (a task that inherited the context stops seeing it when the spawner leaves the block)")
     rep.check("C12.R1", bool(raises) and "NoCurrentContext" in ast.unparse(raises[0]), cc, cc.node, "no current context -> NoCurrentContext", "current_context() does not raise NoCurrentContext when there is none")
     # no second cache of "the current context"
     globals_ = [k for k, v in an.Context.module.assigns.items() if k != var and ("ContextVar" in ast.unparse(v) or "local(" in ast.unparse(v))]
@@ -139,7 +150,8 @@ def run(ctx) -> None:
         rep.violate("C12.R6", starter, starter.node, "the component context is never entered around prepare()/start(): components do not run under their own component context")
     else:
         w = withs[0]
-        phase_calls = [c for c in walk_own(starter.node) if isinstance(c, ast.Call) and isinstance(c.func, ast.Attribute) and c.func.attr in ("prepare", "start") and isinstance(c.func.value, ast.Name) and c.func.value.id not in ("tg",)]
+        # the component's own prepare() / start() take no arguments (a task group's start() does)
+        phase_calls = [c for c in walk_own(starter.node) if isinstance(c, ast.Call) and isinstance(c.func, ast.Attribute) and c.func.attr in ("prepare", "start") and not c.args and not c.keywords]
         awaits = [x for x in walk_own(starter.node) if isinstance(x, ast.Await)]
         inside_all = all(any(x is aw for x in ast.walk(w)) for aw in awaits)
         rep.check("C12.R6", inside_all and bool(phase_calls), starter, w, "prepare(), the children and start() all run inside `async with <component context>`", "a phase of the component runs outside its component context")
